@@ -20,3 +20,4 @@ open Pcore.Lat
 #print axioms C04_common_iterable_repaired
 #print axioms C04_generalize_variant_partial
 #print axioms C04_common_partial
+#print axioms C04_common_full_fails_unit
